@@ -3,6 +3,7 @@ mod fixture;
 mod queries;
 mod sched;
 mod c01;
+mod c04;
 mod c05;
 mod c06;
 mod c12;
@@ -51,6 +52,7 @@ fn main() {
             0
         }
         "c01" => c01::run(opts),
+        "c04" => c04::run(opts),
         "c05" => c05::run(opts),
         "c05-worker" => c05::worker(&args[1..]),
         "c06" => c06::run(opts),
